@@ -175,20 +175,27 @@ def r4_change_of(ctx):
 
 
 def r5_random_chance(ctx):
+    """K6: evaluate() draws exactly once, `gen_bool` with the component's own configured p from the state's generator, and
+    answers what was drawn"""
     F = ctx.facts
     adt = CC + "RandomChance"
     fn = F.method(adt, "evaluate", COND)
     pi = F.field_index(adt, "p")
-    r = fn.body.expr_of_local(0)
-    good = False
-    s = strip(r)
-    if s[0] == "agg" and s[3] == "Ok":
-        c = strip(s[4][0])
-        if c[0] == "call" and c[3]["f"].get("name") == "gen_bool":
-            l0, cs0, _ = origin(c[2][0])
-            l1, cs1, f1 = origin(c[2][1])
-            good = "random_mut" in cs0 and l0 == ("arg", 3) and l1 == ("arg", 1) and f1 == [pi]
-    ctx.check(good, "C10.R5", fn.key, "gen_bool-of-own-p", "RandomChance does not return gen_bool(self.p) of the state's generator: %s" % expr_str(r), detail=expr_str(r)[:120], loc=fn.loc())
+    bad = []
+    for drawn in (True, False):
+        draws = []
+
+        def gb(interp, env, f, args, drawn=drawn):
+            draws.append((load(interp, env, args[0]), load(interp, env, args[1])))
+            return drawn
+        table = {"rand::rng::Rng::gen_bool": gb, "mahf::state::State::random_mut": Sym("state-rng")}
+        it = install(Interp(fn.body, chain(mk_oracle(table), coll_oracle, std_oracle), [Sym("self", {pi: Sym("field:p")}), Sym("problem"), Sym("state")], facts=F, max_visits=6))
+        for p_ in it.run():
+            if p_.end != "return" or not (isinstance(p_.ret, Agg) and p_.ret.variant == "Ok") or p_.ret.fields[0] is not drawn:
+                bad.append((drawn, "answers %s %s" % (p_.end, p_.ret)))
+        if len(draws) != 1 or draws[0][0] != Sym("state-rng") or draws[0][1] != Sym("field:p"):
+            bad.append((drawn, "draws %s; expected exactly one gen_bool(self.p) from the state's generator" % [(str(a), str(b)) for a, b in draws]))
+    ctx.check(not bad, "C10.R5", fn.key, "gen_bool-of-own-p", "when the generator draws %s: RandomChance %s" % (bad[0] if bad else ("", "")), loc=fn.loc())
 
 
 def r6_logical(ctx):
@@ -230,6 +237,31 @@ def r6_logical(ctx):
         it.init_state = {"heap": {"ops": (Sym("cond:0", boxlike=True),)}, "next_vec": 0}
         ends = {(p.end, p.ret.variant if isinstance(p.ret, Agg) else None) for p in it.run()}
         ctx.check(ends == {("return", "Err")}, "C10.R6", fn.key, "operand-error-propagates", "a failing operand yields %s" % sorted(map(str, ends)), loc=fn.loc())
+    # init / require reach every operand exactly once, in order, and stop at / report the first failure
+    for nm in ("And", "Or", "Not"):
+        for phase in ("init", "require"):
+            fn = F.method(LG + nm, phase, COND)
+            bad = []
+            for k in ((1,) if nm == "Not" else range(0, 4)):
+                for fail in [None] + list(range(k)):
+                    seen = []
+
+                    def ph(interp, env, f, args, fail=fail):
+                        c = load(interp, env, args[0])
+                        i = int(c.tag.split(":")[1]) if isinstance(c, Sym) and c.tag.startswith("cond:") else -1
+                        seen.append(i)
+                        return err(Sym("boom")) if i == fail else ok(Agg("tuple", None, None, []))
+                    ops = tuple(Sym("cond:%d" % i, boxlike=True) for i in range(k))
+                    home = 10000
+                    it = install(Interp(fn.body, chain(mk_oracle({COND + "::" + phase: ph}), coll_oracle, std_oracle), [Ref(home, [], frame="root"), Sym("problem"), Sym("state")], facts=F, max_visits=10))
+                    it.extra_env = {home: Agg("adt", LG + nm, nm, [ops[0] if nm == "Not" else Vec("ops")])}
+                    it.init_state = {"heap": {"ops": ops}, "next_vec": 0}
+                    n += 1
+                    outs = [(p.end, p.ret.variant if isinstance(p.ret, Agg) else None) for p in it.run()]
+                    want_seen = list(range(k)) if fail is None else list(range(fail + 1))
+                    if outs != [("return", "Ok" if fail is None else "Err")] or seen != want_seen:
+                        bad.append((k, fail, "ends %s after reaching operands %s; expected %s after %s" % (outs, seen, "Ok" if fail is None else "Err", want_seen)))
+            ctx.check(not bad, "C10.R6", fn.key, phase + "-reaches-every-operand", "%s operand(s), operand %s failing: %s::%s %s" % ((bad[0][0], bad[0][1], nm, phase, bad[0][2]) if bad else ("", "", nm, phase, "")), loc=fn.loc())
     fn = F.method(LG + "Not", "evaluate", COND)
     bad = []
     for v in (True, False):
